@@ -79,6 +79,19 @@ pub use crate::module::{Module, ModuleType};
 pub use crate::qr::{QRBuilder, QRCode};
 pub use crate::version::Version;
 
+/// Stage-boundary marker for the verification seam; expands to nothing
+/// unless the `verif-hooks` feature is enabled.
+macro_rules! verif_point {
+    ($site:expr) => {
+        #[cfg(feature = "verif-hooks")]
+        crate::verif_hooks::point($site);
+    };
+}
+
+#[cfg(feature = "verif-hooks")]
+#[doc(hidden)]
+pub mod verif_hooks;
+
 mod compact;
 #[doc(hidden)]
 pub mod datamasking;
